@@ -34,8 +34,8 @@ ASSUMPTIONS = ['parameter arguments are positional (elfi.Prior accepts no keywor
                'the unchanged tree for dim > 1: outside the domain on which the tree returns)',
                'gradients are compared at interior points whose +-0.05 neighbourhood along every axis is inside the support']
 CONFIG = {
-    'quick': {'shards': 16, 'cases': 14, 'timeout': 600, 'floor': 45},
-    'thorough': {'shards': 32, 'cases': 400, 'timeout': 3000, 'floor': 2500},
+    'quick': {'shards': 16, 'cases': 88, 'timeout': 600, 'floor': 280},
+    'thorough': {'shards': 32, 'cases': 1200, 'timeout': 5400, 'floor': 7500},
 }
 REQUIRED = ['pdf_rows_checked', 'logpdf_rows_checked', 'rows_zero_density', 'rows_positive_density', 'rows_boundary',
             'rvs_rows_checked', 'grad_points_checked', 'shape_checks', 'sel_sorted', 'sel_perm', 'sel_subset',
